@@ -221,6 +221,10 @@ pub enum Act {
     Poke(usize),
 }
 
+/// how much the adaptive flush of `run_case_full` feeds per round: everything (the greedy run), or small pieces
+/// (the adversarial run of a chunking comparison: the whole input arrives in pieces, not just its beginning)
+pub static FLUSH_PIECE: std::sync::atomic::AtomicUsize = std::sync::atomic::AtomicUsize::new(1_000_000);
+
 /// pending control value for the wrapper blocks (`usize::MAX` = none)
 pub static POKE: std::sync::atomic::AtomicUsize = std::sync::atomic::AtomicUsize::new(usize::MAX);
 
@@ -386,7 +390,7 @@ pub fn run_case_full(mut rig: Rig, ins: &[InSpec], acts: &[Act], adaptive_flush:
             }
             for j in 0..rig.ins.len() {
                 if !closed[j] {
-                    acts.push(Act::Feed(j, 1_000_000));
+                    acts.push(Act::Feed(j, FLUSH_PIECE.load(std::sync::atomic::Ordering::SeqCst)));
                 }
             }
             if !data_left && in_used.iter().all(|u| *u == 0) || (!data_left && !last.starts_with('A') && !last.is_empty()) {
